@@ -66,8 +66,8 @@ func vkernels(args []string) error {
 		add(rb, nd)
 	}
 	type res struct {
-		ok          bool
-		tape, strs  []byte
+		ok         bool
+		tape, strs []byte
 	}
 	results := make([][2]map[bool]res, len(inputs))
 	for ki, avx512 := range []bool{true, false} {
